@@ -32,6 +32,16 @@ CLAIMED = {
         "Trusted: symx + z3; exact reals; shapes (d,k,h) and group partitions listed in evidence.bounds; optimality of the hierarchical "
         "operator is by certificate + lemmas (T2 up to h=3, L2 for k=2), the direct 'no competitor does better' query only for the group lasso with h<=2.",
         "DESIGN.md §4 C05", None),
+    "C03": (
+        "Bounded symbolic model checking in two layers. (1) real _infer + real _compute_grads of every model family on symbolic "
+        "parameters/data with a FREE upstream gradient: each returned direction equals -d/dtheta <G, infer(X)> (+ family penalty), by "
+        "exact differentiation of the forward terms, per ReLU pattern / cut ordering. (2) the real fit loop for one epoch under stubs "
+        "(identity validation, symbolic RNG, recording optimiser that re-randomises parameters): at every step the direction handed "
+        "to the optimiser equals -d/dtheta [GEMINI(infer(X_batch), A_batch) - penalty], the GEMINI being re-evaluated on that step's own "
+        "prediction terms (RIM l2, KernelRIM kernel-weighted l2, must-link/cannot-link terms included).",
+        "Trusted: symx + z3; sklearn softmax replaced by its exp contract; predictions assumed unclipped in layer 2; shapes and "
+        "(family, GEMINI, batch size, solver) grid listed in evidence.bounds; exact reals.",
+        "DESIGN.md §4 C03", None),
 }
 
 NOT_APPLICABLE = {
